@@ -75,9 +75,15 @@ condition is needed) and every source without `<`:
                                (`C02_block_parser_keeps_root`, `C02_runX_keeps_root`, `C02_treeXBig_rootDiv` — with
                                admonition too), so `convertXBig ≠ err` (`C02_convertXBig_never_err`).
 
+11. `C02_convertXBig_ok_fenced` — 10. WITH fenced_code (sources without `&`, `tab_length ≥ 1`): the block stage keeps the
+                               STX-token invariant although the text holds the raw-HTML placeholders
+                               (`C02_block_stage_fenced_tokens`), so `UnescapeTreeprocessor` does not raise
+                               (`C02_convertXBig_never_err_fenced`); termination with wikilinks on as well
+                               (`C02_convertXBig_total_fenced_wikilinks`).
+
 Only property statements live here; proofs in `MdVerif/Lemmas/C02Big.lean`, `MdVerif/Lemmas/C02Big{Str,Pat,Run,Tree}.lean`
 (these four mirror `Lemmas/AmpFull*.lean` of C05 for the stronger invariant), `MdVerif/Lemmas/C02BigX.lean`,
-`MdVerif/Lemmas/C02BigXAll.lean`, `MdVerif/Lemmas/C02BigF*.lean` (8.), `MdVerif/Lemmas/C02BigW*.lean` (9.),
+`MdVerif/Lemmas/C02BigXAll.lean`, `MdVerif/Lemmas/C02BigF*.lean` (8., 11.), `MdVerif/Lemmas/C02BigW*.lean` (9.),
 `MdVerif/Lemmas/C02BigSh{Block,All}.lean` (10.; `ShBlock` generated by `work/portSh.py` from c05x's `VocabXWFBlock3`) and
 `MdVerif/Lemmas/C02BigN{Pot,Em,Pat,HI,PP,Run}.lean` (`Pot`, `Em`, `Pat`, `PP` are copies of
 `Lemmas/InlineFuel{Pot,Em,Pat,PP}.lean` generated by `work/portN.py` for the extended weight; `HI`, `Run` transcribe
@@ -89,6 +95,7 @@ import MdVerif.Lemmas.C02BigXErr
 import MdVerif.Lemmas.C02BigFAll
 import MdVerif.Lemmas.C02BigWAll
 import MdVerif.Lemmas.C02BigShAll
+import MdVerif.Lemmas.C02BigFTok
 
 namespace MdVerif.C02Big
 open Py Block Inline InlineLocal NoCtl Vocab2 MdVerif.C08 MdVerif.C08Src
@@ -629,6 +636,60 @@ example : (match convertXBig xBlk {} srcBlk, convertX xBlk {} srcBlk with
 
 /-- the `ood` answer excluded by `hadm` -/
 example : convertXBig { admonition := true } {} "!!! é".toList = .ood := by decide +kernel
+
+/-! ### 11. … with fenced_code -/
+
+/-- **The block stage with fenced_code keeps the STX-token invariant** — a second instance of fc2's block-stage
+    invariant, for ARBITRARY text in which every raw-HTML placeholder is a block of its own: in every tail and
+    non-atomic text of the tree every STX is followed by `k`, `w` or a complete escape token below 0x110000
+    (`TokFull.SOk`; the placeholders are `STX wzxhzdk:n ETX`), attributes, atomic texts and the log have no STX/ETX. -/
+theorem C02_block_stage_fenced_tokens (h : Nat) (tables : Bool) (xc : BlockExt.XCfg) {tab : Nat} (htab : 0 < tab)
+    {text : Str} (ho : NoCtlF.OwnBlock h text) {root : Node} {log : Block.Refs}
+    (hr : BlockExt.parseDocumentXT tables xc tab text = some (root, log)) :
+    root.Forall (BlkX.XInv Blk.okc Blk.okc (fun s => TokFull.SOk s = true)) ∧
+      BlkX.LogC Blk.okc (Blk.AllC Blk.okc) log :=
+  letI : NoCtlF.HtmlBound := ⟨h, false⟩
+  NoCtlXF.XT.block_stage_own_s tables xc htab ho hr
+
+/-- **`Markdown.convert` never raises with fenced_code** (footnotes, abbr, attr_list, toc off; the rest on or off;
+    `tab_length ≥ 1`; every source without `&`) -/
+theorem C02_convertXBig_never_err_fenced (x : Exts) (hf : x.fencedCode = true) (hfn : x.footnotes = false)
+    (hab : x.abbr = false) (hal : x.attrList = false) (htoc : x.toc = false) (cfg : Pipeline.Cfg) (src : Str)
+    (ha : '&' ∉ src) (htab : 0 < cfg.tab) : convertXBig x cfg src ≠ .err :=
+  convertXBig_ne_err_fenced hf hfn hab hal htoc cfg src ha htab
+
+/-- `C02_convertXBig_total_fenced` with wikilinks on, under the source hypothesis of section 9 -/
+theorem C02_convertXBig_total_fenced_wikilinks (x : Exts) (cfg : Pipeline.Cfg) (src : Str) (hs : WikiSrc cfg src)
+    (hf : x.fencedCode = true) (ha : '&' ∉ src) (htab : 0 < cfg.tab) : convertXBig x cfg src ≠ .oof :=
+  convertXBig_ne_oof_fenced_wiki src hs hf ha htab
+
+/-- **C02 with fenced_code — `convert` returns a string**: fenced_code on; tables, admonition, def_list, sane_lists,
+    nl2br, wikilinks on or off; footnotes, abbr, attr_list, toc off; `tab_length ≥ 1`; every source without `<` and `&`
+    of the model's domain (with admonition: no `!!!` followed by a non-ASCII character) in whose normalised text, when
+    wikilinks is on, no `[` is immediately followed by a blank. -/
+theorem C02_convertXBig_ok_fenced (x : Exts) (hf : x.fencedCode = true) (hfn : x.footnotes = false)
+    (hab : x.abbr = false) (hal : x.attrList = false) (htoc : x.toc = false) (cfg : Pipeline.Cfg) (src : Str)
+    (hlt : '<' ∉ src) (ha : '&' ∉ src) (htab : 0 < cfg.tab)
+    (hadm : x.admonition = true → admNonAscii (Normalize.normalize cfg.tab src) = false)
+    (hw : x.wikilinks = true → WikiSrc cfg src) : ∃ out, convertXBig x cfg src = .ok out :=
+  convertXBig_ok_fenced hf hfn hab hal htoc cfg src hlt ha htab hadm hw
+
+/-- all seven on: an admonition with a wiki link, two fenced blocks (one with a language, backticks, emphasis markers
+    and a bracket in the code; one with `~~~` holding a quote marker, a blank line and a table), a definition list, a
+    table -/
+def xBlkF : Exts := { xBlk with fencedCode := true }
+def srcBlkF : Str :=
+  ("!!! note\n    a [[W]]\n\n```py\nx = `1` *a* [b\n```\ntext\n~~~\n> q\n\n|h|\n|-|\n~~~\n\nterm\n:   d\n\n" ++
+   "|h|\n|-|\n|c|\n").toList
+
+example : xBlkF.fencedCode = true ∧ xBlkF.footnotes = false ∧ xBlkF.abbr = false ∧ xBlkF.attrList = false ∧
+    xBlkF.toc = false ∧ '<' ∉ srcBlkF ∧ '&' ∉ srcBlkF ∧ 0 < ({} : Pipeline.Cfg).tab ∧
+    admNonAscii (Normalize.normalize ({} : Pipeline.Cfg).tab srcBlkF) = false ∧ WikiSrc {} srcBlkF := by decide +kernel
+
+/-- 363 characters, the output of the implementation -/
+example : (match convertXBig xBlkF {} srcBlkF, convertX xBlkF {} srcBlkF with
+    | .ok a, .ok b => decide (a = b) && decide (a.length = 363)
+    | _, _ => false) = true := by decide +kernel
 
 end Ext
 
